@@ -76,7 +76,7 @@ class C01(Prop):
                     fields.append(("Fb", b))
                 objs = enc_struct(fields) if fields else "N"
             src = "return " + (expr_fmt % (la, lb) if b is not NotImplemented else expr_fmt % la) + ";"
-            return Case("run", {"script": vlib.hx(src), "objs": objs, "ops": ";".join(ops + ["prepare:noopt", "exec:0"])},
+            return Case("run", {"script": vlib.hx(src), "objs": objs, "ops": ";".join(ops + ["prepare:" + rng.choice(["noopt", "opt"]), "exec:0"])},
                         stream, note=src)
         for prov in provs:
             for op in BINOPS:
@@ -105,7 +105,7 @@ class C01(Prop):
             ops = ["setvar:%s:%s" % (vlib.hx(k), enc_value(v)) for k, v in
                    [("vi", rng.choice(INTS + NEG)), ("vf", rng.choice(FLOATS)), ("vs", rng.choice(STRS)),
                     ("vb", rng.random() < 0.5), ("va", rng.choice(ARRS)), ("vh", rng.choice(HASHES))]]
-            f = gen.struct_case(rng, "return %s;" % e, ops + ["prepare:noopt", "exec:0"], host_fns=())
+            f = gen.struct_case(rng, "return %s;" % e, ops + ["prepare:" + rng.choice(["noopt", "opt"]), "exec:0"], host_fns=())
             out.append(Case("run", f, "nested", nontrivial=any(c in e for c in "+-*/<>=!&|%")))
         return out
 
